@@ -62,20 +62,17 @@ Print Assumptions C02_ov_mono.
 (* ---- histories on shared objects (Alloc/Hist.v) ----
    A program may keep every allocation it has built, call any of them again (refine / uniform_refinement_depth /
    griddify / must_be_refined / max_refinement_depth / area / center, with any arguments), and set rect.fixed in
-   place on a cell between two calls; a cell that an operation did not cut is the same Rectangle object in the
-   result, so the flag is seen by both.  [run_hist] is that program on the model: cells carry the identity of their
-   Rectangle object, the state is the list of allocations built so far, every step is a pure function of the
-   current values.  [hvalid aeps s]: s has at least one allocation and all of them are accepted by the constructor.
+   place on a cell between two calls; allocations derived from one another may hold the same Rectangle object, so
+   the flag may be seen by several of them.  [run_hist] is that program on the model: the state is the list of the
+   allocations built so far (current values), every step is the value function of Alloc.v on the current values -
+   nothing is remembered between calls.  Which allocations share an object is not part of C02: [HSetFixed] carries
+   the flags observed after the assignment, the model accepts them if they are a possible outcome (the addressed
+   cell carries the flag; a cell whose flag changed has the geometry of the addressed cell and carries the flag) and
+   goes on from them.  [hvalid aeps s]: s has at least one allocation and all of them are accepted by the constructor.
    [event_ok eps aeps q (call, src, result)]: src - the values the target had when the call was made - is accepted,
    and: a refinement call returned [ONew (Some new)] with [run_op call src = Some new], [refines src new] and
    [accepted new] (the clauses of C02, with the fixed flags of that moment); a query returned the value function
    of Alloc.v on src. *)
-
-(* forgetting the object identities, a call is the value function on the current values: nothing is remembered *)
-Theorem C02_htrans_erase : forall eps aeps q o next l,
-  option_map (fun p => hvals (snd p)) (htrans eps aeps q o next l) = run_op eps aeps q o (hvals l).
-Proof. exact htrans_erase. Qed.
-Print Assumptions C02_htrans_erase.
 
 (* setting fixed flags in place keeps an allocation accepted *)
 Theorem C02_flag_rel_accepted : forall aeps l l',
@@ -98,29 +95,25 @@ Proof. exact hist_ok. Qed.
 Print Assumptions C02_hist_ok.
 
 (* c.rect.fixed = b, c the cell of A[k] with centre (x, y) (the position of a cell in the list is no part of the
-   property; cells of an accepted allocation do not overlap, so the centre identifies the cell): the flag of every
-   cell sharing that Rectangle object is set, in every allocation of the history, and nothing else changes *)
-Theorem C02_hset_fixed_spec : forall eps aeps q s k x y b hc, find (at_centre x y) (hget s k) = Some hc ->
-  fst (hstep eps aeps q (HSetFixed k x y b) s) = hset_fixed (fst hc) b s /\
-  In hc (hget s k) /\ centre_of (snd hc) = (x, y) /\
-  In (fst hc, cset_fixed b (snd hc)) (hget (hset_fixed (fst hc) b s) k) /\
-  Forall2 (Forall2 (fun c c' : hcell => fst c' = fst c /\
-                      (if Nat.eqb (fst c) (fst hc) then snd c' = cset_fixed b (snd c) else snd c' = snd c)))
-          (hallocs s) (hallocs (hset_fixed (fst hc) b s)).
+   property; cells of an accepted allocation do not overlap, so the centre identifies the cell): whichever
+   allocations share that Rectangle object, afterwards that cell of A[k] carries the flag b, and every cell of every
+   allocation is as it was or - possibly, if it has the geometry of c - carries the flag b too ([set_rel]) *)
+Theorem C02_hset_fixed_spec : forall eps aeps q s k x y b after s' fl,
+  hstep eps aeps q (HSetFixed k x y b after) s = (s', OFixed fl) ->
+  fl = hfixed s' /\
+  exists c0 c1, find (at_centre x y) (hget s k) = Some c0 /\
+    find (at_centre x y) (hget s' k) = Some c1 /\ fixed (crect c1) = b /\
+    Forall2 (Forall2 (fun c c' => c' = c \/ (c' = cset_fixed b c /\ same_geom c0 c = true))) s s'.
 Proof. exact hset_fixed_spec. Qed.
 Print Assumptions C02_hset_fixed_spec.
 
 (* ... and the next refinement call on that allocation, whatever it is and whatever was asked of the
    allocation before, hands that cell over whole *)
-Theorem C02_set_fixed_true_not_cut : forall eps aeps q s k x y o' hc,
+Theorem C02_set_fixed_true_not_cut : forall eps aeps q s k x y after o' s1 fl,
   0 <= aeps -> hvalid aeps s -> op_admissible o' ->
-  find (at_centre x y) (hget s k) = Some hc ->
-  let s1 := fst (hstep eps aeps q (HSetFixed k x y true) s) in
-  let src := hvals (hget s1 k) in
-  let c := cset_fixed true (snd hc) in
-  fixed (crect c) = true /\
-  exists j new parts, nth_error src j = Some c /\
+  hstep eps aeps q (HSetFixed k x y true after) s = (s1, OFixed fl) ->
+  exists c j new parts, nth_error (hget s1 k) j = Some c /\ at_centre x y c = true /\ fixed (crect c) = true /\
     snd (hstep eps aeps q (HApply k o') s1) = ONew (Some new) /\
-    new = List.concat parts /\ Forall2 cell_refines src parts /\ nth_error parts j = Some [c].
+    new = List.concat parts /\ Forall2 cell_refines (hget s1 k) parts /\ nth_error parts j = Some [c].
 Proof. exact set_fixed_true_not_cut. Qed.
 Print Assumptions C02_set_fixed_true_not_cut.
